@@ -318,14 +318,36 @@ func TestVerifC12Resolution(t *testing.T) {
 		preHeight := closeHeight -
 			uint32(rapid.IntRange(0, 3).Draw(rt, "preGap"))
 
+		// As in the decision test the arbitrator may have learnt the
+		// commitments through contract updates from the link.
+		stale := rapid.IntRange(0, 3).Draw(rt, "staleStart") == 0
+
 		w := newCcWorld(int32(preHeight))
 		w.applyKnowledge(sc)
 		inc := w.newInc()
-		arb, wl, err := ccBuildArb(t, sc, inc, sc.htlcSets(), c12MemLog)
+		sets := sc.htlcSets()
+		if stale {
+			sets = map[HtlcSetKey]htlcSet{
+				LocalHtlcSet:  newHtlcSet(nil),
+				RemoteHtlcSet: newHtlcSet(nil),
+			}
+		}
+		arb, wl, err := ccBuildArb(t, sc, inc, sets, c12MemLog)
 		if err != nil {
 			rt.Fatalf("build: %v", err)
 		}
 		defer ccStop(arb)
+		if stale {
+			for s := 0; s < 3; s++ {
+				if s == ccP && !sc.HasPending {
+					continue
+				}
+				arb.notifyContractUpdate(&ContractUpdate{
+					HtlcKey: ccSetKeys[s],
+					Htlcs:   sc.htlcs(s),
+				})
+			}
+		}
 
 		obs := &c12Obs{}
 		confirmed := false
@@ -349,6 +371,9 @@ func TestVerifC12Resolution(t *testing.T) {
 
 		labels := []string{"conf=" + ccConfNames[conf],
 			fmt.Sprintf("n=%d", len(sc.HTLCs))}
+		if stale {
+			labels = append(labels, "stale_start")
+		}
 
 		// Optional earlier broadcast of our own commitment.
 		broadcast := false
@@ -502,8 +527,8 @@ func TestVerifC12Resolution(t *testing.T) {
 				"resolvers":    c12Describe(obs.resolvers),
 				"fails":        fmt.Sprint(obs.preMsgs, obs.msgs)}
 		}
-		st.Case(vstats.FP(sc.fp(), conf, pre, closeHeight, preHeight),
-			sc.nontrivial(), labels, smp)
+		st.Case(vstats.FP(sc.fp(), conf, pre, closeHeight, preHeight,
+			stale), sc.nontrivial(), labels, smp)
 	})
 }
 
